@@ -6,8 +6,16 @@ Envelope.Verify (library), `gobl verify -k` (the binary), POST /bulk {"action":"
 POST /verify of a loopback `gobl serve` (harness/c09.go).  The verdict classes must equal the
 model's (Env/Lifecycle.v: verify, cli_verify, variant "repaired") and each other, and - oracle P,
 independent of the model - success is allowed only if the generator KNOWS by construction that
-everything the key holder signed is still in the header (and must happen then)."""
+everything the key holder signed is still in the header (and must happen then).
+
+Stream "sequence": the verdict on a request must not depend on what the process answered before.  The
+stages of ONE envelope's life (signed; then modified once, twice - every stage carries the original
+signature) are presented as an ordered series of requests (stage, key) to the long-lived processes:
+POST /bulk and POST /verify of one `gobl serve`, one request each, and afterwards all together as one
+bulk stream in the body of a single POST /bulk ("bulk-batch"; harness op c09seq).  Every single answer is judged exactly like a one-shot presentation (same oracle P,
+same model verdict, agreement with the fresh `gobl verify` process and the library)."""
 import shutil
+import time
 from vlib import *
 import vlib
 from envops import *
@@ -17,7 +25,7 @@ TRUSTED = [
     "symbolic signatures: ES256 unforgeability and go-jose correctness are the shape of Env/Sig.v (Sig k h), not proved",
     "bulk and HTTP verification are the same Go function as the command line (internal/cli.Verify): the model has one verdict for the three, the check observes all three",
     "sha256 is treated as collision-free by the correspondence (verify_after_recalc_fails states the collision case)",
-    "outside the model: per-element validation of stamps and links, uuid version rules, link title/description/mime, YAML input",
+    "outside the model: per-element validation of stamps and links, uuid version rules, YAML input; a link's title/description/mime are part of the model's opaque link value (harness/c10.go envLink)",
 ]
 
 FX_REPAIRED = 3      # bit 0 = fix9, bit 1 = fix10
@@ -25,10 +33,18 @@ F9 = "C09-9-cli-verify-ignores-signed-header"
 F10 = "C09-10-empty-signature-entry-accepted"
 KEYS = [0, 1, 2, -1]
 
+# symbolic link values name the WHOLE link: "<url>~T<title>~D<description>~M<mime>" (harness/c10.go envLink)
+def lv(url="e", title="t1", desc="d1", mime="application/pdf"):
+    return "~".join([url] + [t + v for t, v in (("T", title), ("D", desc), ("M", mime)) if v])
+
+
+L3 = lv()
+
 # ---- three ways the envelope got signed (what the signature of key 0 covers) ----
 PREFIX = {
     # everything coverable is covered: stamp p1, link l1, tag t1, meta m1, notes
-    "full": [(STAMP, "p1", "v1"), (LINK, "l1", "a"), (TAG, "t1"), (META, "m1", "x"), (NOTES, "n1"), (SIGN, 0)],
+    # (link l1 is a bare key+url, link l3 has title, description and mime)
+    "full": [(STAMP, "p1", "v1"), (LINK, "l1", "a"), (LINK, "l3", L3), (TAG, "t1"), (META, "m1", "x"), (NOTES, "n1"), (SIGN, 0)],
     # only identifier and digest are covered
     "min": [(SIGN, 0)],
     # the key holder signed a header without digest (Contains then ignores the digest): not even the digest is covered
@@ -67,6 +83,22 @@ MODS = [
     M("link-alter-uncovered", "links", [(LINK, "l2", "c"), (LINK, "l2", "d")]),
     M("link-remove-uncovered", "links", [(LINK, "l2", "c"), (RMLINK, "l2")]),
     M("link-null-entry", "links", [(NULLLINK,)], nil=True),
+    # every detail of a covered link is part of the signed header: url, title, description, mime
+    M("link-url-alter-covered-detailed", "links", [(LINK, "l3", lv(url="f"))], ("full",)),
+    M("link-title-alter-covered", "links", [(LINK, "l3", lv(title="t2"))], ("full",)),
+    M("link-title-remove-covered", "links", [(LINK, "l3", lv(title=""))], ("full",)),
+    M("link-description-alter-covered", "links", [(LINK, "l3", lv(desc="d2"))], ("full",)),
+    M("link-description-remove-covered", "links", [(LINK, "l3", lv(desc=""))], ("full",)),
+    M("link-mime-alter-covered", "links", [(LINK, "l3", lv(mime="text/html"))], ("full",)),
+    M("link-mime-remove-covered", "links", [(LINK, "l3", lv(mime=""))], ("full",)),
+    M("link-title-add-covered", "links", [(LINK, "l1", "a~Tt9")], ("full",)),
+    M("link-description-add-covered", "links", [(LINK, "l1", "a~Dd9")], ("full",)),
+    M("link-mime-add-covered", "links", [(LINK, "l1", "a~Mtext/html")], ("full",)),
+    M("link-same-value-again-covered", "links", [(LINK, "l3", L3)]),
+    M("link-title-alter-then-restore-covered", "links", [(LINK, "l3", lv(title="t2")), (LINK, "l3", L3)]),
+    M("link-details-swapped-covered", "links", [(LINK, "l3", lv(title="d1", desc="t1"))], ("full",)),
+    M("link-raw-duplicate-with-other-title", "links", [(RMLINK, "l3"), (RAWLINK, "l3", lv(title="t2"))], ("full",)),
+    M("link-title-alter-uncovered", "links", [(LINK, "l2", lv(url="c")), (LINK, "l2", lv(url="c", title="t2"))]),
     # tags
     M("tag-add-uncovered", "tags", [(TAG, "t2")]),
     M("tag-alter-covered", "tags", [(RMTAG, "t1"), (TAG, "t9")], ("full",)),
@@ -186,7 +218,90 @@ def gen(c, quick):
         c.rng.shuffle(trip)
         for a, b, d in trip[:3000]:
             cases.append(("triple", make_case(c.rng.choice(list(PREFIX)), ordered([a, b, d]))))
-    return cases
+    return cases, gen_seq(c, quick, uniq)
+
+
+NONE = MODS[0]
+
+
+def gen_seq(c, quick, uniq):
+    """Series of requests about ONE envelope's stages: (prefix, [mods of stage 1, 2, ...], [(stage, key) ...]).
+    Stage 0 is the envelope as signed; stage i carries the signatures of stage 0 and the first i modifications.
+    Two-stage series for every way of signing x every modification of MODS: the modified envelope before and
+    after the genuine one was accepted, the genuine one with another key (or none) after it was accepted with the
+    right one, and both once more at the end.  Three-stage series for seed-chosen pairs in a seed-chosen order."""
+    seqs = []
+    for p in PREFIX:
+        for m in MODS[1:]:
+            k2 = c.rng.choice([1, 2, -1])
+            seqs.append((p, [m], [(1, 0), (0, 0), (1, 0), (0, k2), (1, k2), (0, 0), (1, 0)]))
+    n = 45 if quick else 400
+    for i, (a, b) in enumerate(uniq[:n]):
+        p = list(PREFIX)[i % 3]
+        reqs = [(c.rng.randrange(3), c.rng.choice([0, 0, 0, 1, 2, -1])) for _ in range(8)]
+        reqs.insert(c.rng.randrange(3), (0, 0))
+        seqs.append((p, [a, b], reqs))
+    return seqs
+
+
+def c09seq_line(fx, base, stage_ops, reqs):
+    return "c09seq %d %d ( %s ) ( %s )" % (fx, base, " ".join(wops(o) for o in stage_ops), " ".join(w([s, k]) for s, k in reqs))
+
+
+def run_sequences(c, seqs):
+    """Every answer of a series is judged like a one-shot presentation of that stage with that key."""
+    lines, metas, mlines = [], [], []
+    for p, mods, reqs in seqs:
+        stage_ops = [list(PREFIX[p])] + [list(m["ops"]) for m in mods]
+        lines.append(c09seq_line(FX_REPAIRED, 0, stage_ops, reqs))
+        stage_cases = [make_case(p, [NONE] + mods[:i]) if i == 0 else make_case(p, mods[:i]) for i in range(len(mods) + 1)]
+        metas.append((p, mods, reqs, stage_cases))
+        for cs in stage_cases:
+            mlines.append(c09_line(FX_REPAIRED, 0, cs["ops"], KEYS))
+    t = time.time()
+    go = par_go(lines)
+    mo = run_oracle(mlines, shards=16, min_shard=64)
+    c.cov["sequence_go_seconds"] = round(time.time() - t, 1)
+    mi = 0
+    for (p, mods, reqs, stage_cases), l, g in zip(metas, lines, go):
+        vs = parse_wire(g)
+        ok = len(vs) == 2 and len(vs[0]) == len(reqs) and len(vs[1]) == len(stage_cases) and all(isinstance(r, list) and len(r) == 6 for r in vs[0])
+        mrows = [parse_out(mo[mi + i], len(KEYS)) for i in range(len(stage_cases))]
+        mops = [op_outcomes(mo[mi + i]) for i in range(len(stage_cases))]
+        mi += len(stage_cases)
+        if not ok or any(r is None for r in mrows):
+            c.count("sequence", 1)
+            c.report("harness or model could not run the series: %s -> %s" % (l, g), {"case": l}, no_input=True)
+            continue
+        rows = [[x.decode() for x in r] for r in vs[0]]
+        deltas = [[x.decode() for x in st] for st in vs[1]]
+        names = ["signed"] + ["+".join(m["name"] for m in mods[:i]) for i in range(1, len(mods) + 1)]
+        order = ", ".join("%s with %s" % (names[s], "no key" if k < 0 else "key %d" % k) for s, k in reqs)
+        # the same envelope with the same key: the same answer, whatever was asked before
+        first = {}
+        for i, ((s, k), r) in enumerate(zip(reqs, rows)):
+            j, r0 = first.setdefault((s, k), (i, r))
+            for name, col in (("bulk", 3), ("http", 4), ("bulk-batch", 5)):
+                if klass(r[col]) != klass(r0[col]):
+                    c.report("%s verification answers the same request differently inside one process: envelope [%s] (signed: %s; modification: %s) "
+                             "with %s is request %d (%s) and request %d (%s) of the series [%s]"
+                             % (name, show(stage_cases[s]["ops"]), p, names[s], "no key" if k < 0 else "key %d" % k, j + 1, r0[col], i + 1, r[col], order),
+                             {"case": l, "series": order, "requests": [j + 1, i + 1], "answers": [r0[col], r[col]], "path": name,
+                              "rerun": "tools/check C09 --replay <this file>"})
+        for s, cs in enumerate(stage_cases):
+            idx = [i for i, (st, _) in enumerate(reqs) if st == s]
+            if not idx:
+                continue
+            ks = [reqs[i][1] for i in idx]
+            go_ops = [x for d in deltas[:s + 1] for x in d]
+            seq = dict(line=l, order=order, pos=idx,
+                       distinct=[(p, tuple(m["name"] for m in mods), s, reqs[i][1], tuple(reqs[:i])) for i in idx])
+            judge_and_compare(c, "sequence", cs, [rows[i] for i in idx], [mrows[s][KEYS.index(k)] for k in ks], l, go_ops, mops[s], keys=ks, seq=seq)
+    if seqs:
+        p, mods, reqs, _ = metas[0]
+        c.sample({"stream": "sequence", "signed": p, "stages": ["signed"] + [m["name"] for m in mods], "requests (stage, key)": reqs,
+                  "per request: validate, lib, cli, bulk, http, bulk-batch": [[x.decode() for x in r] for r in parse_wire(go[0])[0]]})
+    c.cov["sequences"] = len(seqs)
 
 
 def corpus_case(line):
@@ -206,36 +321,45 @@ def op_outcomes(line):
     return [x.decode() for x in vs[1]] if len(vs) == 2 else []
 
 
-def judge_and_compare(c, stream, case, go_rows, mo_rows, line, go_ops, mo_ops):
+def judge_and_compare(c, stream, case, go_rows, mo_rows, line, go_ops, mo_ops, keys=KEYS, seq=None):
+    """seq (stream "sequence"): the rows are requests of an ordered series presented to long-lived processes;
+    seq = dict(line=<c09seq line>, order=<text>, pos=[index of each row in the series], distinct=[counting key per row])."""
     ops = case["ops"]
     # a surgery the implementation refuses to parse did not happen: the envelope is the one before it
     applied = [o[0] for o, r in zip(ops, go_ops) if r == "ok"]
     case = dict(case)
     if case["garbage"] and not ({EMPTYSIG, NULLSIG} & set(applied)):
         case["garbage"] = case["first_garbage"] = False
-    if go_ops != mo_ops:
+    if go_ops != mo_ops and not (seq and seq.get("ops_reported")):
         c.report("implementation and model differ on the outcomes of the operations building the envelope [%s]: %s vs %s"
                  % (show(ops), go_ops, mo_ops), {"case": c10_line(FX_REPAIRED, 0, ops), "implementation": go_ops, "model": mo_ops},
                  finding_id=(F10 if EMPTYSIG in {o[0] for o in ops} else None))
     hist = show(ops)
     codes = {o[0] for o in ops}
-    for k, g, m in zip(KEYS, go_rows, mo_rows):
-        val, lib, cli, bulk, web = g
-        nontrivial = (case["prefix"], tuple(case["names"]), k)
+    for ri, (k, g, m) in enumerate(zip(keys, go_rows, mo_rows)):
+        val, lib, cli, bulk, web = g[:5]
+        batch = g[5] if len(g) > 5 else "skip"
+        nontrivial = (case["prefix"], tuple(case["names"]), k) if not seq else seq["distinct"][ri]
         c.count(stream, 1, nontrivial)
-        for name, v in (("lib", lib), ("cli", cli), ("bulk", bulk), ("http", web)):
+        for name, v in (("lib", lib), ("cli", cli), ("bulk", bulk), ("http", web), ("bulk-batch", batch)):
             if v != "skip":
                 c.cov["entry_point_verdicts"][name] = c.cov["entry_point_verdicts"].get(name, 0) + 1
         acc = expected_accept(case, k)
         kname = "no key" if k < 0 else "key %d" % k
         ctx = "envelope [%s] (signed: %s; modification: %s) presented with %s" % (hist, case["prefix"], "+".join(case["names"]), kname)
-        rep = {"case": c09_line(FX_REPAIRED, 0, ops, [k]), "history": [show_op(o) for o in ops], "key": k,
-               "implementation": dict(validate=val, library=lib, cli=cli, bulk=bulk, http=web),
+        if seq:
+            ctx += "; request %d of the series [%s] answered by one `gobl serve` (bulk, http: one request each, in this order; bulk-batch: all in one POST /bulk body)" % (
+                seq["pos"][ri] + 1, seq["order"])
+        rep = {"case": c09_line(FX_REPAIRED, 0, ops, [k]) if not seq else seq["line"], "history": [show_op(o) for o in ops], "key": k,
+               "implementation": dict(validate=val, library=lib, cli=cli, bulk=bulk, http=web, **({"bulk-batch": batch} if seq else {})),
                "model": dict(validate=m[0], library=m[1], cli=m[2]),
                "expected_by_construction": "accept" if acc else "reject",
                "rerun": "tools/check C09 --replay <this file>"}
         first_by_k = bool(case["signers"]) and case["signers"][0] == k and not case.get("first_garbage")
-        cli_paths = [("cli", cli), ("bulk", bulk), ("http", web)]
+        cli_paths = [("cli", cli), ("bulk", bulk), ("http", web)] + ([("bulk-batch", batch)] if seq else [])
+        if seq:
+            rep["series"] = seq["order"]
+            rep["request"] = seq["pos"][ri] + 1
 
         def fid_for_panic():
             return None     # the nil dereferences were repaired in the repository (commit 3e1b1c1): any panic is a violation
@@ -265,11 +389,12 @@ def judge_and_compare(c, stream, case, go_rows, mo_rows, line, go_ops, mo_ops):
                 c.report("%s panics (nil dereference): %s" % (name, ctx), rep, finding_id=fid_for_panic())
         # -- the entry points agree with each other
         ks = [klass(v) for _, v in cli_paths if v != "skip"]
-        if len(set(ks)) > 1 or (cli not in ("skip",) and bulk != "skip" and cli != bulk):
-            c.report("command line, bulk and HTTP verification disagree (%s / %s / %s): %s" % (cli, bulk, web, ctx), rep)
+        if len(set(ks)) > 1 or (cli not in ("skip",) and bulk != "skip" and cli != bulk) or (batch != "skip" and bulk != "skip" and batch != bulk):
+            c.report("command line, bulk and HTTP verification disagree (%s / %s / %s%s): %s" % (cli, bulk, web, " / bulk-batch %s" % batch if seq else "", ctx), rep)
         # -- implementation against model
         unm = lambda v: "other" if v == "unmarshal" else v   # unparseable input: a plain 400 on the command-line paths
-        diffs = [n for n, a, b in (("validate", val, m[0]), ("library", lib, m[1]), ("cli", cli, unm(m[2])), ("bulk", bulk, unm(m[2])))
+        diffs = [n for n, a, b in (("validate", val, m[0]), ("library", lib, m[1]), ("cli", cli, unm(m[2])), ("bulk", bulk, unm(m[2])),
+                                   ("bulk-batch", batch, unm(m[2])))
                  if a != "skip" and a != b]
         if klass(web) != klass(m[2]) and web != "skip":
             diffs.append("http")
@@ -277,7 +402,7 @@ def judge_and_compare(c, stream, case, go_rows, mo_rows, line, go_ops, mo_ops):
             fid = None
             for fx, cand in ((2, F9), (1, F10), (0, None)):
                 alt = parse_out(run_oracle([c09_line(fx, 0, ops, [k])], shards=1)[0], 1)
-                if alt and alt[0][0] == val and alt[0][1] == lib and all(v in ("skip", unm(alt[0][2])) for v in (cli, bulk)) and klass(web) in ("skip", klass(alt[0][2])):
+                if alt and alt[0][0] == val and alt[0][1] == lib and all(v in ("skip", unm(alt[0][2])) for v in (cli, bulk, batch)) and klass(web) in ("skip", klass(alt[0][2])):
                     if cand == F9 and first_by_k:
                         fid = F9
                     elif cand == F10 and codes & {EMPTYSIG, NULLSIG}:
@@ -319,7 +444,8 @@ def run(c):
                                          signers=[int(x) for x in exp.get("signers", "0").split(",") if x != ""],
                                          broken=exp.get("broken") == "1", garbage=exp.get("garbage") == "1", nil=exp.get("nil") == "1",
                                          first_garbage=exp.get("first_garbage") == "1")))
-        cases += gen(c, quick)
+        gcases, seqs = gen(c, quick)
+        cases += gcases
         lines = [c09_line(FX_REPAIRED, 0, cs["ops"], KEYS) for _, cs in cases]
         go = par_go(lines)
         mo = run_oracle(lines, shards=16)
@@ -330,6 +456,7 @@ def run(c):
                 c.report("harness or model could not run the case: %s -> %s / %s" % (l, g, m), {"case": l}, no_input=True)
                 continue
             judge_and_compare(c, stream, cs, gr, mr, l, op_outcomes(g), op_outcomes(m))
+        run_sequences(c, seqs)
         for i in (0, len(cases) // 3, 2 * len(cases) // 3, len(cases) - 1):
             stream, cs = cases[i]
             c.sample({"stream": stream, "signed": cs["prefix"], "modification": cs["names"], "history": show(cs["ops"]),
@@ -340,7 +467,11 @@ def run(c):
                          "every single modification of the table MODS (7 header fields x add/alter/remove x covered/uncovered, document "
                          "edits with and without recalculation, signature-list edits, nil header / null entries), seed-chosen pairs "
                          "(thorough: all pairs, sampled triples), plus the corpus; keys 0,1 (signers), 2 (never signs), none; "
-                         "distinct = distinct (way of signing, modification, key); all are non-trivial (each presents a signed or formerly signed envelope)")
+                         "distinct = distinct (way of signing, modification, key); all are non-trivial (each presents a signed or formerly signed envelope); "
+                         "stream sequence: one evaluation = one request of an ordered series about one envelope's stages (signed, modified once, twice) "
+                         "answered by one `gobl serve` (POST /bulk and POST /verify one request each in order, then all in one POST /bulk body): every way of signing x "
+                         "every modification as a 7-request series (modified before and after the genuine one was accepted, other key / no key after the right key), "
+                         "seed-chosen pairs as 9-request series in seed-chosen order; distinct = distinct (way of signing, modifications, stage, key, requests before it)")
         # cross-check of the extracted model inside Coq
         samp = lines[:: max(1, len(lines) // 200)][:200]
         try:
@@ -371,6 +502,14 @@ def replay(path):
     vlib.GOENV["TMPDIR"] = tmp
     vlib.GOENV["VERIF_GOBL_BIN"] = os.path.join(BIN, "gobl")
     try:
+        if l.startswith("c09seq"):
+            print("series:", r.get("series"))
+            out = parse_wire(run_go([l], shards=1)[0])
+            for i, row in enumerate(out[0]):
+                print("request %d (validate, lib, cli, bulk, http, bulk-batch):" % (i + 1), [x.decode() for x in row])
+            print("every answer must be the one a fresh process gives (cli column) and reject whatever the key holder did not sign;",
+                  "reported request:", r.get("request", r.get("requests")))
+            return 0
         print("history:", "; ".join(r.get("history", [])), "| key", r.get("key"))
         print("implementation (validate, lib, cli, bulk, http):", parse_out(run_go([l], shards=1)[0], 1))
         print("model repaired (validate, lib, cli):            ", parse_out(run_oracle([l], shards=1)[0], 1))
